@@ -16,7 +16,7 @@ Definition dump (K : nat) (s : st) : list nat :=
   ++ flat_map (fun p => dpst s (P s p)) (seq 0 K).
 
 Definition active (x : pst) : bool := match qp x with Q1 | Q2 | Q3 => true | _ => false end.
-Definition stage_of (q : ppc) : nat := match q with Q1 => 2 | Q2 => 1 | _ => 0 end.
+Definition stage_of (q : ppc) : nat := match q with Q1 => 2 | Q2 | Q3 => 1 | _ => 0 end.
 Definition oeq (o : option nat) (x : option nat) := Nat.eqb (o2n o) (o2n x).
 Definition alln (s : st) (f : nat -> bool) := forallb f (seq 0 (nn s)).
 Definition imp (a b : bool) := implb a b.
@@ -54,7 +54,7 @@ Definition inv_b (K : nat) (s : st) : bool :=
   (* GH *) oeq (nnext (nd (head s))) None &&
   (* R1 *) alln s (fun n => (refs (nd n) =? b2n (inch (nd n)) + b2n (hnd (nd n))) && Bool.eqb (freed (nd n)) (negb (inch (nd n)) && negb (hnd (nd n)))) &&
   (* R3 *) negb (hnd (nd 0)) && alln s (fun n => imp ((1 <=? n) && negb (ret (nd n))) (hnd (nd n))) &&
-  (* R5 *) alln s (fun n => imp (1 <=? stage (nd n)) (let x := P s (own (nd n)) in (qn x =? n) && ((ppc2n (qp x) =? 2) || (ppc2n (qp x) =? 3)))).
+  (* R5 *) alln s (fun n => imp (1 <=? stage (nd n)) (let x := P s (own (nd n)) in (qn x =? n) && ((ppc2n (qp x) =? 2) || (ppc2n (qp x) =? 3) || (ppc2n (qp x) =? 4)))).
 
 Definition monitors := monitors_ok.
 Extraction "model.ml" init step dump inv_b monitors.
